@@ -211,7 +211,9 @@ pub fn run(run: &mut Run) -> PResult {
         super::common::count_soak(run, "the same card filtered 2^32 times", 8 * ((1u64 << 32) + 8), &|n| {
             let per = (1u64 << 32) + 8 + 1;
             let c = card::DECK[((n / per) * 5 % 52) as usize];
-            if ckc_rs::CardNumber::filter(c) != c || (n % per > (1u64 << 32) && (ckc_rs::CardNumber::filter(c + 1) != 0 || ckc_rs::CardNumber::filter(c - 1) != 0)) {
+            // near the 2^32 mark the neighbours are looked at *before* the card itself is used again
+            let around = n % per >= (1u64 << 32) - 4;
+            if (around && (ckc_rs::CardNumber::filter(c + 1) != 0 || ckc_rs::CardNumber::filter(c - 1) != 0)) || ckc_rs::CardNumber::filter(c) != c {
                 return Err(format!("after {} uses of {}: filter({}) = {}, filter({}) = {}", n % per, card::render(c), hex(c), hex(ckc_rs::CardNumber::filter(c)), hex(c + 1), hex(ckc_rs::CardNumber::filter(c + 1))));
             }
             Ok(())
